@@ -4,7 +4,10 @@ Tie: C (H1): the real libmcount, configured through the real UFTRACE_* option st
 (-F/-N/-C/-D/-t/-Z/-L/-T; regex, glob and simple patterns), driven in-process with a
 scripted clock, against the Lean model; monitors evaluate the property on the
 implementation's output: filter state restored, nesting, method independence, and the
-documented selection for the core options."""
+documented selection for the core options.
+The hook model has the repair of finding F-C07-TRACEOFF-FLUSH (Cfg.f7fixed: flush of the pending ENTRY records
+at the TRACE_OFF update of mcount_entry_filter_check); a libmcount that matches the model with f7fixed=0 instead
+is reported as that finding (KNOWN-FINDING while it is listed open under C07, VIOLATION with the case otherwise)."""
 import json
 import re
 import sys
@@ -117,8 +120,25 @@ def run(ctx):
             kf = (lambda fn, i, kind=kind: kind if kind != "mix" else ("pg" if (fn + i) % 2 else "cyg"))
             cases.append({"opts": o, "script": mcgen.script_lines(ops, kf), "kind": kind, "core": core, "forest": i})
     mcheck.run_cases(ctx, exe, sizes, cases)
+    # finding F-C07-TRACEOFF-FLUSH (property C07; the hook model shared with C02/C07/C17/C18 has the repair, Cfg.f7fixed):
+    # where libmcount does not behave like the hook model and the option set has a trace_off trigger, does it behave
+    # like the model of the code before the repair (no flush of the pending ENTRY records at the TRACE_OFF update of
+    # mcount_entry_filter_check)?
+    tof = [f for f in C.known_findings("C07") if f["id"] == "F-C07-TRACEOFF-FLUSH"]
+    odd = [c for c in cases if c["impl_cmp"] != c["model_cmp"] and
+           any(a == "trace_off" for _, acts in c["opts"].T for a, _ in acts)]
+    if odd:
+        ml, spans = [], []
+        for c in odd:
+            pre = ["RESET"] + mcgen.to_model(c["opts"], sizes, False)
+            pre[1] += " f7fixed=0"
+            spans.append((len(ml) + len(pre), len(c["script"])))
+            ml += pre + c["script"]
+        mo = C.run_model("Mcount", ml)
+        for c, (a, n) in zip(odd, spans):
+            c["matches_prefix_F7_hook_model"] = [mcheck.strip_obs(C.norm(x), False) for x in mo[a:a + n]] == c["impl_cmp"]
 
-    total = disagreements = monitor_fail = known_hits = 0
+    total = disagreements = monitor_fail = known_hits = prefix_f7 = 0
     replays = 0
     distinct = set()
     dist = {"core_option_sets": 0, "with_F": 0, "with_N": 0, "with_L": 0, "with_T": 0, "with_C": 0, "with_t": 0,
@@ -168,6 +188,31 @@ def run(ctx):
         c["bad"] = bad
         if len(samples) < 3 and total % 97 == 11:
             samples.append({"env": mcgen.to_env(o), "kind": c["kind"], "script": c["script"][:30], "impl_stream": st[:10]})
+        if dis and not bad and c.get("matches_prefix_F7_hook_model"):
+            # libmcount matches the hook model with f7fixed=0: a trace_off trigger in a function that the filters reject
+            # (or while the thread's enable_cached is stale) does not write the pending ENTRY records of the open callers
+            prefix_f7 += 1
+            if tof:
+                known_hits += 1
+                C.known(ctx, tof[0], "F-C07-TRACEOFF-FLUSH a trace_off trigger on a function that the filters reject loses the "
+                                     "ENTRY records of the open callers (libmcount matches the hook model with f7fixed=0)")
+                continue
+            monitor_fail += 1
+            if replays < 3:
+                replays += 1
+                first = next((i for i, (a, b) in enumerate(zip(c["impl_cmp"], c["model_cmp"])) if a != b), None)
+                C.violation(ctx, "case%d" % total, {
+                    "kind": "property-violated-on-implementation", "finding": "F-C07-TRACEOFF-FLUSH",
+                    "what": "the calls selected by the filters are not all recorded: a trace_off trigger in a function that the "
+                            "filters reject does not write the pending ENTRY records of the open callers",
+                    "implementation_matches_pre_fix_model": True, "pre_fix_model": "Mcount CFG f7fixed=0",
+                    "witness_theorem": "c07_prefix_traceoff_flush_witness", "proposed_fix": "proposed_fixes/C07-TRACEOFF-FLUSH.diff",
+                    "hook": c["kind"], "env": mcgen.to_env(o), "script": c["script"][:300],
+                    "first_line_difference": None if first is None else {
+                        "line": first, "op": c["script"][first], "impl": c["impl_cmp"][first][-300:],
+                        "repaired_model": c["model_cmp"][first][-300:]},
+                    "theorem": "c07_traceoff_in_rejected_flushes (Props/C07.lean) / correspondence Mcount"})
+            continue
         if bad or dis:
             if bad and not dis and f4 and leak_shape(o, c["script"]):
                 known_hits += 1
@@ -215,7 +260,7 @@ def run(ctx):
                 "patterns; optional small max_stack) x random call forests over 9 symbols in 2 source files, each forest followed by "
                 "two probe calls, each run under the -pg hook, the cygprof hook and a mix. distinct = distinct (options, script)",
         "input_distribution": dist, "model_code_disagreements": disagreements, "monitor_failures_on_impl": monitor_fail,
-        "known_finding_hits": known_hits, "method_independence_pairs": indep_checked, "method_independence_failures": indep_fail,
+        "known_finding_hits": known_hits, "libmcount_matches_pre_F7_hook_model": prefix_f7, "method_independence_pairs": indep_checked, "method_independence_failures": indep_fail,
         "samples": samples, "exhaustive": False,
     })
     ctx.assumptions += ["regexec/fnmatch as provided by libc (the real engines run in the harness)",
